@@ -55,7 +55,7 @@ TReset == /\ IsEv("Reset")
 
 Key(h) == <<archid, basecfg, gen'[h]>>
 TGen == /\ IsEv("Gen")
-        /\ Ev.em \in E /\ Ev.p \in 1 .. 8
+        /\ Ev.em \in E /\ Ev.p \in 1 .. 9
         /\ GenLegal(Ev.em, Ev.p)
         /\ Ev.h = em[Ev.em].code
         /\ Gen(Ev.em, Ev.p)
